@@ -81,6 +81,50 @@ macro_rules! mmcs_universe {
                 )
             }
 
+            /// Honest opening at `index`: the verification circuit and the traces of its honest run
+            /// (for the prove + verify arms of C09 / C10).
+            pub fn build_and_run(shape: &MmcsShape, index: usize) -> Result<(p3_circuit::Circuit<CF>, p3_circuit::tables::Traces<CF>), String> {
+                let perm = $defperm();
+                let mmcs = MyMmcs::new(MyHash::new(perm.clone()), MyCompress::new(perm.clone()), shape.cap_height);
+                let ms = mats(shape);
+                let dimensions: Vec<_> = ms.iter().map(|m| m.dimensions()).collect();
+                let max_h = max_height(shape);
+                let log_max = log2_ceil_usize(max_h);
+                let (commit, pd) = mmcs.commit(ms);
+                let index = index % max_h;
+                let opening = mmcs.open_batch(index, &pd);
+                let roots: Vec<[F; DIGEST_ELEMS]> = commit.roots().to_vec();
+                let mut b = CircuitBuilder::<CF>::new();
+                b.enable_poseidon2_perm::<$p2params, _>(generate_poseidon2_trace::<CF, $p2params>, perm.clone());
+                b.enable_recompose::<F>(generate_recompose_trace::<F, CF>);
+                let openings: Vec<Vec<_>> = opening.opened_values.iter().map(|o| (0..o.len()).map(|_| b.public_input()).collect()).collect();
+                let dirs = b.alloc_public_inputs(log_max, "directions");
+                let rate_ext = $p2cfg.rate_ext();
+                let caps: Vec<Vec<_>> = (0..roots.len()).map(|_| b.alloc_public_inputs(rate_ext, "cap").to_vec()).collect();
+                let ops = verify_batch_circuit::<F, CF>(&mut b, $p2cfg, &caps, &dimensions, &dirs, &openings, None).map_err(|e| format!("{e:?}"))?;
+                let circuit = b.build().map_err(|e| format!("{e:?}"))?;
+                let d = <CF as BasedVectorSpace<F>>::DIMENSION;
+                let mut pubs: Vec<CF> = opening.opened_values.iter().flat_map(|v| v.iter().map(|x| CF::from(*x))).collect();
+                pubs.extend((0..log_max).map(|k| CF::from_bool((index >> k) & 1 == 1)));
+                for r in &roots {
+                    for ch in r.chunks(d) {
+                        let mut c = vec![F::ZERO; d];
+                        c[..ch.len()].copy_from_slice(ch);
+                        pubs.push(CF::from_basis_coefficients_slice(&c).unwrap());
+                    }
+                }
+                let traces = {
+                    let mut r = circuit.runner();
+                    r.set_public_inputs(&pubs).map_err(|e| format!("{e:?}"))?;
+                    for (op, dg) in ops.iter().zip(opening.opening_proof.iter()) {
+                        let sib: Vec<CF> = dg.chunks(d).map(|ch| CF::from_basis_coefficients_slice(ch).unwrap()).collect();
+                        r.set_private_data(*op, perm_private_data($p2cfg, sib)).map_err(|e| format!("{e:?}"))?;
+                    }
+                    r.run().map_err(|e| format!("{e:?}"))?
+                };
+                Ok((circuit, traces))
+            }
+
             pub fn max_height(shape: &MmcsShape) -> usize {
                 shape.dims.iter().map(|d| d.0).max().unwrap()
             }
@@ -246,6 +290,59 @@ pub mod kb4a4 {
         let (commit, pd) = m.commit(ms);
         let o = m.open_batch(index % max_h, &pd);
         (o.opened_values.iter().map(|v| v.len()).sum(), o.opening_proof.len() * DIGEST_ELEMS, log2_ceil_usize(max_h), commit.num_roots() * DIGEST_ELEMS)
+    }
+
+    pub fn build_and_run(shape: &MmcsShape, index: usize) -> Result<(p3_circuit::Circuit<CF>, p3_circuit::tables::Traces<CF>), String> {
+        let (perm, m) = mmcs(shape.cap_height);
+        let ms = mats(shape);
+        let dimensions: Vec<_> = ms.iter().map(|m| m.dimensions()).collect();
+        let max_h = shape.dims.iter().map(|d| d.0).max().unwrap();
+        let log_max = log2_ceil_usize(max_h);
+        let (commit, pd) = m.commit(ms);
+        let index = index % max_h;
+        let opening = m.open_batch(index, &pd);
+        let roots: Vec<[F; DIGEST_ELEMS]> = commit.roots().to_vec();
+        let proof = &opening.opening_proof;
+        let cfg = Poseidon2Config::KOALA_BEAR_D4_W32;
+        let mut b = CircuitBuilder::<CF>::new();
+        b.enable_poseidon2_perm_width_32::<KoalaBearD4Width32, _>(generate_poseidon2_trace::<CF, KoalaBearD4Width32>, perm.clone());
+        b.enable_recompose::<F>(generate_recompose_trace::<F, CF>);
+        let openings: Vec<Vec<_>> = opening.opened_values.iter().map(|o| (0..o.len()).map(|_| b.public_input()).collect()).collect();
+        let dirs = b.alloc_public_inputs(log_max, "directions");
+        let caps: Vec<Vec<_>> = (0..roots.len()).map(|_| b.alloc_public_inputs(DIGEST_ELEMS / 4, "cap").to_vec()).collect();
+        let ops = verify_batch_circuit_arity4::<F, CF>(&mut b, cfg, &caps, &dimensions, &dirs, &openings).map_err(|e| format!("{e:?}"))?;
+        let circuit = b.build().map_err(|e| format!("{e:?}"))?;
+        let mut pubs: Vec<CF> = opening.opened_values.iter().flat_map(|v| v.iter().map(|x| CF::from(*x))).collect();
+        pubs.extend((0..log_max).map(|k| CF::from_bool((index >> k) & 1 == 1)));
+        for r in &roots {
+            pubs.extend(pack_digest(r));
+        }
+        if ops.len() != proof.len() {
+            return Err(format!("{} sibling slots for {} proof digests", ops.len(), proof.len()));
+        }
+        let traces = {
+            let mut r = circuit.runner();
+            r.set_public_inputs(&pubs).map_err(|e| format!("{e:?}"))?;
+            let capacity_ext = cfg.capacity_ext();
+            let (mut pi, mut oi) = (0usize, 0usize);
+            while oi < ops.len() {
+                let op = ops[oi];
+                let mut flat = Vec::new();
+                let mut n = 0usize;
+                while oi < ops.len() && ops[oi] == op {
+                    flat.extend(pack_digest(&proof[pi]));
+                    pi += 1;
+                    oi += 1;
+                    n += 1;
+                }
+                for _ in n..3 {
+                    flat.extend(vec![CF::ZERO; capacity_ext]);
+                }
+                r.set_private_data(op, perm_private_data(cfg, flat)).map_err(|e| format!("{e:?}"))?;
+            }
+            r.run().map_err(|e| format!("{e:?}"))?
+        };
+        Ok((circuit, traces))
     }
 
     pub fn run_case(shape: &MmcsShape, f: &MFault) -> Result<CaseOut, String> {
